@@ -274,7 +274,10 @@ def run_shards(module_name: str, shards: Sequence[Any], seed: int) -> Result:
         rot = seed % len(indexed)
         indexed = indexed[rot:] + indexed[:rot]
     try:
-        workers = min(N_WORKERS, max(1, len(indexed)))
+        module = importlib.import_module(module_name)
+        workers = min(
+            N_WORKERS, getattr(module, "MAX_WORKERS", N_WORKERS), max(1, len(indexed))
+        )
         if workers == 1 or os.environ.get("VERIF_INPROCESS") == "1":
             _worker_init(module_name, base_tmp)
             results = [_worker_run(item) for item in indexed]
